@@ -12,7 +12,8 @@ use crate::rng::Rng;
 
 pub struct C06;
 
-pub const TOL: f64 = 0.0051;
+// half a unit of the second decimal (the reported figure is rounded) + 4e-4 for f32 arithmetic along the chained formulas
+pub const TOL: f64 = 0.0055;
 
 const BRANCHES: [&str; 16] = [
     "ext-roof",
